@@ -206,11 +206,13 @@ package secp256k1
 //@ func Scalar.IsZero
 //@   mode int
 //@   requires wfs(s)
+//@   uses glue_zero_n(eval(s.S))
 //@   ensures z [C13]: result == (sv(s) == Fn(0))
 
 //@ func Scalar.IsOne
 //@   mode int
 //@   requires wfs(s)
+//@   uses glue_inj_n(eval(s.S), R % N)
 //@   ensures o [C13]: result == (sv(s) == Fn(1))
 
 //@ func Scalar.Equal
